@@ -9,11 +9,10 @@ pub fn def() -> PropDef {
     PropDef {
         id: "C12",
         builds: BOTH,
-        rule: "every word over {L,HY,W,CM,SP(inner),D,CSI,OSS,E2,ZW,OP,EM} up to length N x whitespace in {\"\",\"  \"} x penalty in {\"\",\"-\"} x splitters {none, hyphen, custom(every boundary incl. 0), custom(every other boundary)} x limits 0..=N+1 and MAX; non-trivial = a word that is actually split or actually broken",
+        rule: "every word over {L,HY,W,CM,SP(inner),D,CSI,OSS,E2,ZW,OP,EM,OSH} up to length N x whitespace in {\"\",\"  \"} x penalty in {\"\",\"-\"} x splitters {none, hyphen, custom(every boundary incl. 0), custom(every other boundary)} x limits 0..=N+1 and MAX; non-trivial = a word that is actually split or actually broken",
         assumptions: BASE_ASSUMPTIONS,
         floor: |t| t.pick(10_000, 500_000),
         run,
-        panics_are_verdict: false,
     }
 }
 
@@ -171,7 +170,7 @@ fn check_word(body: &str, nsyms: usize, cx: &mut Cx) {
 
 fn run(r: &mut Run) -> Result<(), MachineryError> {
     let t = r.tier;
-    let alpha = [L, HY, W, CM, SP, D, CSI, OSS, E2, ZW, OP, EM];
+    let alpha = [L, HY, W, CM, SP, D, CSI, OSS, E2, ZW, OP, EM, OSH];
     let n = t.pick(4, 5);
     let space = Space { name: "C12/words".into(), menu: menu(&alpha), max_len: n, desc: format!("words of length <= {} symbols (trailing spaces trimmed) x whitespace x penalty x 4 splitters x limits", n) };
     r.space(space, |seq, cx| {
@@ -179,7 +178,19 @@ fn run(r: &mut Run) -> Result<(), MachineryError> {
         cx.set_input(&body);
         check_word(&body, seq.len(), cx);
     })?;
-    let core = [L, HY, W, CM, D, CSI, OSB];
+    let t2 = t;
+    r.range("C12/all-characters-in-context", &format!("{}; each in the words \"cc\", \"acb\", \"a-c\", \"c-a\" x whitespace x penalty x 4 splitters x limits 0..=4, MAX", scalar_desc(t)), scalar_space(t), move |i, cx| {
+        let c = match scalar_at(t2, i) {
+            Some(c) if c != '\x1b' => c,
+            _ => return,
+        };
+        cx.seq = idx_seq(i);
+        for word in [format!("{c}{c}"), format!("a{c}b"), format!("a-{c}"), format!("{c}-a")] {
+            cx.set_input(&word);
+            check_word(&word, 3, cx);
+        }
+    })?;
+    let core = [L, HY, W, CM, D, CSI, OSH];
     let n = t.pick(5, 7);
     let space = Space { name: "C12/words-core-deeper".into(), menu: menu(&core), max_len: n, desc: format!("words of length <= {} over the 7 symbols that drive hyphen splitting and force-breaking", n) };
     r.space(space, |seq, cx| {
